@@ -1297,6 +1297,9 @@ class ContactHandler(Messenger, dbus.service.Object):
     def recv_xfer_ack(self, transfer_id, flags, length):
         Messenger.recv_xfer_ack(self, transfer_id, flags, length)
 
+        if transfer_id not in self._tx_map:
+            raise RejectError(messages.RejectMsg.Reason.UNEXPECTED)
+
         if self._config.modulate_target_ack_time is not None:
             delta_b = length - self._segment_last_ack_len
             self._segment_last_ack_len = length
